@@ -24,9 +24,12 @@ import (
 	"fmt"
 	"sort"
 	"strings"
+	"sync"
 )
 
 var _ = sort.Ints
+
+var _ sync.Mutex
 
 var trace []string
 
@@ -679,7 +682,7 @@ type CFProg struct {
 
 // genCFProg builds a program with nfuncs control-flow obfuscated functions.
 func genCFProg(r *rand.Rand, nfuncs int, exclude map[string]bool, only []string, allowTrash bool, fixed *cfParams) *CFProg {
-	kinds := cfKinds()
+	kinds := append(cfKinds(), cfKinds2()...)
 	var pool []cfKind
 	for _, k := range kinds {
 		if exclude[k.feature] {
